@@ -644,3 +644,365 @@ let run_capi bc l r =
        then orelse (call sw) (fun _ -> call sv)
        else orelse (call sv) (fun _ -> call sw)
      | None -> call sw)
+
+type rcls =
+| RT
+| RX
+| RU
+
+type cop =
+| LT
+| LE
+| EQ
+| NE
+| GT
+| GE
+
+type cstate =
+| CU0
+| CN
+| CTr
+| CFa
+
+type rres =
+| RNI
+| RB of bool
+| RTypeErr
+| RFuel
+
+type rev = (rcls * cop) * bool
+
+type rM = rev list * rres
+
+type ropnd = bool * rcls
+
+(** val rcls_eqb : rcls -> rcls -> bool **)
+
+let rcls_eqb a b =
+  match a with
+  | RT -> (match b with
+           | RT -> true
+           | _ -> false)
+  | RX -> (match b with
+           | RX -> true
+           | _ -> false)
+  | RU -> (match b with
+           | RU -> true
+           | _ -> false)
+
+(** val swap : cop -> cop **)
+
+let swap = function
+| LT -> GT
+| LE -> GE
+| GT -> LT
+| GE -> LE
+| x -> x
+
+(** val all_cop : cop list **)
+
+let all_cop =
+  LT :: (LE :: (EQ :: (NE :: (GT :: (GE :: [])))))
+
+(** val root_pref : cop list **)
+
+let root_pref =
+  LT :: (LE :: (GT :: (GE :: [])))
+
+(** val rsub : rcls -> rcls -> bool **)
+
+let rsub a b =
+  match a with
+  | RX -> (match b with
+           | RT -> true
+           | _ -> rcls_eqb a b)
+  | _ -> rcls_eqb a b
+
+(** val rchain : rcls -> rcls list **)
+
+let rchain = function
+| RX -> RX :: (RT :: [])
+| x -> x :: []
+
+(** val rbind : rM -> (rres -> rM) -> rM **)
+
+let rbind a k =
+  let b = k (snd a) in ((app (fst a) (fst b)), (snd b))
+
+(** val rret : rres -> rM **)
+
+let rret r =
+  ([], r)
+
+(** val rnot : rres -> rres **)
+
+let rnot r = match r with
+| RB b -> RB (negb b)
+| _ -> r
+
+(** val derive : cop -> cop -> bool * nat **)
+
+let derive root0 op =
+  match root0 with
+  | LT ->
+    (match op with
+     | LE -> (false, (S O))
+     | GT -> (true, (S (S O)))
+     | GE -> (true, O)
+     | _ -> (false, O))
+  | LE ->
+    (match op with
+     | LT -> (false, (S (S O)))
+     | GT -> (true, O)
+     | GE -> (true, (S O))
+     | _ -> (false, O))
+  | GT ->
+    (match op with
+     | LT -> (true, (S (S O)))
+     | LE -> (true, O)
+     | GE -> (false, (S O))
+     | _ -> (false, O))
+  | GE ->
+    (match op with
+     | LT -> (true, O)
+     | LE -> (true, (S O))
+     | GT -> (false, (S (S O)))
+     | _ -> (false, O))
+  | _ -> (false, O)
+
+(** val is_ordering : cop -> bool **)
+
+let is_ordering = function
+| EQ -> false
+| NE -> false
+| _ -> true
+
+(** val rst : (cop -> cstate) -> (cop -> cstate) -> rcls -> cop -> cstate **)
+
+let rst tst xst c m0 =
+  match c with
+  | RT -> tst m0
+  | RX -> xst m0
+  | RU -> CU0
+
+(** val rdef : (cop -> cstate) -> (cop -> cstate) -> rcls -> cop -> bool **)
+
+let rdef tst xst c m0 =
+  match rst tst xst c m0 with
+  | CU0 -> false
+  | _ -> true
+
+(** val r_is_py : world -> bool -> rcls -> bool **)
+
+let r_is_py w xpy c =
+  match w with
+  | WPy -> true
+  | WCy -> (match c with
+            | RX -> xpy
+            | _ -> false)
+
+(** val ruser :
+    (cop -> cstate) -> (cop -> cstate) -> rcls -> cop -> ropnd -> rM **)
+
+let ruser tst xst c m0 s =
+  ((((c, m0), (fst s)) :: []),
+    (match rst tst xst c m0 with
+     | CTr -> RB true
+     | CFa -> RB false
+     | _ -> RNI))
+
+(** val root : (cop -> cstate) -> (cop -> cstate) -> cop option **)
+
+let root tst xst =
+  find (rdef tst xst RT) root_pref
+
+(** val any_def : (cop -> cstate) -> (cop -> cstate) -> rcls -> bool **)
+
+let any_def tst xst c =
+  existsb (rdef tst xst c) all_cop
+
+(** val comp :
+    world -> (cop -> cstate) -> (cop -> cstate) -> bool -> rcls -> cop ->
+    rcls option **)
+
+let comp w tst xst xpy c m0 =
+  find (fun x -> (&&) (negb (r_is_py w xpy x)) (rdef tst xst x m0)) (rchain c)
+
+type rreq =
+| QDo of ropnd * ropnd * cop
+| QTp of rcls * ropnd * ropnd * cop
+
+(** val rev_ :
+    world -> (cop -> cstate) -> (cop -> cstate) -> bool -> bool -> cstate ->
+    cstate -> bool -> nat -> rreq -> rM **)
+
+let rec rev_ w tst xst tord xpy uord ueq nefix fuel q =
+  match fuel with
+  | O -> rret RFuel
+  | S f ->
+    (match q with
+     | QDo (v, x, op) ->
+       let first =
+         (&&) (negb (rcls_eqb (snd v) (snd x))) (rsub (snd x) (snd v))
+       in
+       let refl = fun _ ->
+         rev_ w tst xst tord xpy uord ueq nefix f (QTp ((snd x), x, v,
+           (swap op)))
+       in
+       let fwd = fun _ ->
+         rev_ w tst xst tord xpy uord ueq nefix f (QTp ((snd v), v, x, op))
+       in
+       let dflt =
+         rret (match op with
+               | EQ -> RB false
+               | NE -> RB true
+               | _ -> RTypeErr)
+       in
+       let step = fun a k ->
+         rbind a (fun r -> match r with
+                           | RNI -> k ()
+                           | _ -> rret r)
+       in
+       if first
+       then step (refl ()) (fun _ -> step (fwd ()) (fun _ -> dflt))
+       else step (fwd ()) (fun _ -> step (refl ()) (fun _ -> dflt))
+     | QTp (c, s, o, op) ->
+       let object_rc = fun op0 ->
+         match op0 with
+         | NE ->
+           rbind
+             (rev_ w tst xst tord xpy uord ueq nefix f (QTp ((snd s), s, o,
+               EQ))) (fun r -> rret (rnot r))
+         | _ -> rret RNI
+       in
+       (match c with
+        | RU ->
+          ((((RU, op), (fst s)) :: []),
+            (match if is_ordering op then uord else ueq with
+             | CTr -> RB true
+             | CFa -> RB false
+             | _ -> RNI))
+        | _ ->
+          if r_is_py w xpy c
+          then (match w with
+                | WPy ->
+                  (match find (fun x -> rdef tst xst x op) (rchain c) with
+                   | Some x -> ruser tst xst x op s
+                   | None ->
+                     (match if (&&) tord (is_ordering op)
+                            then root tst xst
+                            else None with
+                      | Some r ->
+                        let (neg, comb) = derive r op in
+                        rbind
+                          (rev_ w tst xst tord xpy uord ueq nefix f (QTp
+                            ((snd s), s, o, r))) (fun a ->
+                          match a with
+                          | RB b ->
+                            let b' = if neg then negb b else b in
+                            (match comb with
+                             | O -> rret (RB b')
+                             | S n0 ->
+                               (match n0 with
+                                | O ->
+                                  if b'
+                                  then rret (RB true)
+                                  else rev_ w tst xst tord xpy uord ueq nefix
+                                         f (QDo (s, o, EQ))
+                                | S n1 ->
+                                  (match n1 with
+                                   | O ->
+                                     if b'
+                                     then rev_ w tst xst tord xpy uord ueq
+                                            nefix f (QDo (s, o, NE))
+                                     else rret (RB false)
+                                   | S _ -> rret (RB b'))))
+                          | _ -> rret a)
+                      | None -> object_rc op))
+                | WCy ->
+                  if rdef tst xst RX op
+                  then ruser tst xst RX op s
+                  else rev_ w tst xst tord xpy uord ueq nefix f (QTp (RT, s,
+                         o, op)))
+          else (match find (any_def tst xst) (rchain c) with
+                | Some g ->
+                  let tor = (&&) tord (rcls_eqb g RT) in
+                  let src =
+                    find (fun m0 ->
+                      match comp w tst xst xpy g m0 with
+                      | Some _ -> true
+                      | None -> false) root_pref
+                  in
+                  let has = fun m0 ->
+                    match comp w tst xst xpy g m0 with
+                    | Some _ -> true
+                    | None -> false
+                  in
+                  let tor0 =
+                    (&&)
+                      ((&&) tor
+                        (match src with
+                         | Some _ -> true
+                         | None -> false)) ((||) (has EQ) (has NE))
+                  in
+                  (match comp w tst xst xpy g op with
+                   | Some d -> ruser tst xst d op s
+                   | None ->
+                     (match if (&&) tor0 (is_ordering op) then src else None with
+                      | Some r ->
+                        let (neg, comb) = derive r op in
+                        rbind
+                          (match comp w tst xst xpy g r with
+                           | Some d -> ruser tst xst d r s
+                           | None -> rret RNI) (fun a ->
+                          match a with
+                          | RB b ->
+                            let b' = if neg then negb b else b in
+                            let eqcall = fun inv ->
+                              let m0 = if has EQ then EQ else NE in
+                              let inv0 = if has EQ then inv else negb inv in
+                              rbind
+                                (match comp w tst xst xpy g m0 with
+                                 | Some d -> ruser tst xst d m0 s
+                                 | None -> rret RNI) (fun e ->
+                                rret (if inv0 then rnot e else e))
+                            in
+                            (match comb with
+                             | O -> rret (RB b')
+                             | S n0 ->
+                               (match n0 with
+                                | O ->
+                                  if b' then rret (RB true) else eqcall false
+                                | S n1 ->
+                                  (match n1 with
+                                   | O ->
+                                     if b'
+                                     then eqcall true
+                                     else rret (RB false)
+                                   | S _ -> rret (RB b'))))
+                          | _ -> rret a)
+                      | None ->
+                        (match op with
+                         | NE ->
+                           if has EQ
+                           then if nefix
+                                then rbind
+                                       (rev_ w tst xst tord xpy uord ueq
+                                         nefix f (QTp ((snd s), s, o, EQ)))
+                                       (fun r -> rret (rnot r))
+                                else rbind
+                                       (match comp w tst xst xpy g EQ with
+                                        | Some d -> ruser tst xst d EQ s
+                                        | None -> rret RNI) (fun r ->
+                                       rret (rnot r))
+                           else rret RNI
+                         | _ -> rret RNI)))
+                | None -> object_rc op)))
+
+(** val rc_run :
+    world -> (cop -> cstate) -> (cop -> cstate) -> bool -> bool -> cstate ->
+    cstate -> bool -> rcls -> rcls -> cop -> rM **)
+
+let rc_run w tst xst tord xpy uord ueq nefix l r op =
+  rev_ w tst xst tord xpy uord ueq nefix (S (S (S (S (S (S (S (S (S (S (S (S
+    (S (S O)))))))))))))) (QDo ((true, l), (false, r), op))
